@@ -109,6 +109,19 @@ CLAIMED["C23"] = dict(
     note=TB + "; Fraction.limit_denominator and np.lcm.reduce are external (exercised by the enumeration itself, since the real functions run)",
     category="proof")
 
+CLAIMED["C06"] = dict(
+    text="Weight bookkeeping of the K-point machinery (real text) with SYMBOLIC weights and coordinates: absorb (all flag combinations), "
+         "divide (children count, weight/prod(ndiv), exact tiling of the parent cell per axis, parent weight 0, non-periodic axes) for six "
+         "refinement meshes, exclude_equiv_points for EVERY equivalence pattern of up to 4 (quick) / 5 (thorough) points and every number of "
+         "new points (total weight conserved, only new points removed, each removed point absorbed by one equivalent survivor, order "
+         "kept), KpointBZtetra.__init__/divide with symbolic vertices (absolute corners kept, uniform split of the longest edge, "
+         "signed child volume = parent/ndiv as a polynomial identity), and the literal five-tetrahedra table of GridTetra read from the "
+         "source: volumes, coverage of the cell and pairwise disjoint interiors in linear real arithmetic (unbounded). Per-shape in the "
+         "refinement mesh / number of points, for all real weights. Bounded stand-in: Grid.get_K_list with six real (magnetic) point "
+         "groups on compatible small grids (orbits partition the grid, weight = orbit size / N) and a refinement step with merging. "
+         "Not covered: PointGroup.star itself (see C09), split_tetra_* loops (termination not claimed).",
+    note=TB + "; assumed: equiv() is an equivalence relation and equivalent points have equal distGamma; orbit-stabiliser for 'exactly once' is only checked on the enumerated groups")
+
 NOT_APPLICABLE = {
     "C20": "real-space symmetrisation is a data-dependent floating-point orbit search over irrep objects; its postcondition is only statable through an eigen-solver, no discrete/algebraic kernel is left once externals are abstracted (DESIGN section 7)",
     "C21": "rotation matrices are produced inside sympy (polynomial expansion + evalf); orthogonality/composition live in that CAS computation, outside any contract this engine can generate VCs for (DESIGN section 7)",
